@@ -57,7 +57,7 @@ theorem strict_loadModel_ok {cfg : Cfg} {cls : String} {fields : List Field}
   · exact ⟨_, rfl⟩
   · split at h <;> cases h
 
-theorem strict_all₂_length {α β : Type} {R : α → β → Prop} {a : List α} {b : List β} (h : All₂ R a b) :
+theorem strict_all₂_length {α β : Type} {R : α → β → Prop} {a : List α} {b : List β} (h : Pointwise₂ R a b) :
     a.length = b.length := by
   induction h with
   | nil => rfl
